@@ -18,7 +18,7 @@ from typing import Any
 
 import anyio
 
-from .bench import Adapter, Bench, compare
+from .bench import Adapter, Bench, compare, prim
 from .common import Ctx, Disagreement, Result, Violation, load_corpus, run_model
 
 
@@ -52,7 +52,7 @@ class EventAdapter(Adapter):
 
     def setup(self, cfg: Any, bench: Bench) -> None:
         self.bench = bench
-        self.ev = anyio.Event()
+        self.ev = prim("Event", bool((cfg or {}).get("adapter")))
 
     def fmt(self, t: int, op: list, pre: bool) -> str:
         if op[0] == "wait":
@@ -101,7 +101,7 @@ def gen_event_case(rng: random.Random, max_tasks: int, max_ops: int) -> dict:
             if rng.random() < 0.7:
                 ops = [o for i, o in enumerate(ops) if not (o[0] == "wait" and i < pos)] or [["set"]]
         scripts.append(ops)
-    return {"kind": "event", "cfg": {}, "scripts": scripts}
+    return {"kind": "event", "cfg": {"adapter": rng.random() < 0.25}, "scripts": scripts}
 
 
 def event_oracle(b: Bench) -> str | None:
@@ -161,7 +161,7 @@ class CondAdapter(Adapter):
 
     def setup(self, cfg: Any, bench: Bench) -> None:
         self.bench = bench
-        self.cond = anyio.Condition(anyio.Lock(fast_acquire=bool(cfg["fast"])))
+        self.cond = anyio.Condition(prim("Lock", bool(cfg.get("adapter")), fast_acquire=bool(cfg["fast"])))
 
     def fmt(self, t: int, op: list, pre: bool) -> str:
         k = op[0]
@@ -289,7 +289,7 @@ def gen_cond_case(rng: random.Random, max_waiters: int) -> dict:
         # the `async with cond:` idiom: enter/leave through __aenter__/__aexit__
         scripts = [[(op[:1] + ["cm"] + op[1:]) if op[0] in ("acquire", "release") else op for op in sc]
                    for sc in scripts]
-    return {"kind": "cond", "cfg": {"fast": rng.random() < 0.3}, "scripts": scripts}
+    return {"kind": "cond", "cfg": {"fast": rng.random() < 0.3, "adapter": rng.random() < 0.25}, "scripts": scripts}
 
 
 WHENS = ["before", "same-cancel-first", "same-notify-first", "after-held", "after-released", "none"]
